@@ -344,6 +344,33 @@ def _canonicalise_names(raw, unit):
     raw["_renamed"] = ren
 
 
+def _canonicalise_incdec(raw):
+    """`x += 1;`, `x -= 1;`, `x = x + 1;`, `x = x - 1;` as statements are the increment/decrement events `x++;` / `x--;`."""
+    if raw.get("_incdec_done"):
+        return
+    raw["_incdec_done"] = True
+    for b in raw["blocks"]:
+        for i, ev in enumerate(b["events"]):
+            if ev.get("ev") != "assign":
+                continue
+            e = ev["e"]
+            op = None
+            one = lambda x: x is not None and cval(x) == 1     # noqa: E731
+            if e.get("op") in ("+=", "-=") and one(e.get("r")):
+                op = "++" if e["op"] == "+=" else "--"
+            elif e.get("op") == "=":
+                r = strip(e.get("r"))
+                if r is not None and r.get("k") == "bin" and r.get("op") in ("+", "-") and one(r.get("r")) and S(r.get("l")) == S(e.get("l")):
+                    op = "++" if r["op"] == "+" else "--"
+                elif r is not None and r.get("k") == "bin" and r.get("op") == "+" and one(r.get("l")) and S(r.get("r")) == S(e.get("l")):
+                    op = "++"
+            if op:
+                b["events"][i] = {"line": ev["line"], "ev": "incdec",
+                                  "e": {"k": "un", "op": op, "postfix": True, "e": e["l"], "t": e.get("t", "")}}
+                if ev.get("macro"):
+                    b["events"][i]["macro"] = ev["macro"]
+
+
 def _canonicalise_decl_init(raw, unit):
     """A local that the reference declares with an initialiser and the tree declares bare and assigns later (or the reverse) is
     brought back to the reference shape (engine/alias.py): splitting or merging declaration and initialisation is invisible."""
@@ -373,6 +400,7 @@ class Func:
     def __init__(self, raw, unit):
         _canonicalise_names(raw, unit)
         _canonicalise_params(raw)
+        _canonicalise_incdec(raw)
         _canonicalise_decl_init(raw, unit)
         _substitute_new_locals(raw, unit)
         self.raw = raw
@@ -759,6 +787,11 @@ def _mentions(atom, lv):
     return False
 
 
+# static helpers with exactly one caller in the reference tree: helper -> caller (used only when the helper no longer exists)
+FOLDED_INTO = {"tell_subscribers": "tell_pubsub_msg", "alloc_ps_msg": "tell_if", "_pipe": "init_pubsub_fd", "loop_quit": None,
+               "insert_node": "m_bst_insert", "is_system_message": "m_mod_ps_publish"}
+
+
 class Program:
     def __init__(self, root="/repo", ndebug=True, facts=None):
         self.root = root
@@ -774,9 +807,12 @@ class Program:
         for u in self.units:
             if u in nm and not facts[u].get("_inlined_done"):
                 done = _inline.inline_new_helpers(facts[u], set(nm[u].keys()))
+                # pure one-expression static helpers are expanded in every tree (reference included): canonical form
+                _inline.inline_pure_expr_helpers(facts[u])
                 facts[u]["_inlined_done"] = True
                 if done:
                     self.inlined[u] = done
+        self.folded = {}
         self.funcs = []              # all Func
         self.by_name = defaultdict(list)
         self.records = {}            # name -> record (first definition wins; identical across units)
@@ -814,6 +850,12 @@ class Program:
         if len(c) == 1:
             return c[0]
         if not c:
+            # a static helper folded into its only caller: the rules anchored on it look at the caller instead (they are written over
+            # events, facts and paths, not over the function boundary); everything they required must now hold there
+            host = FOLDED_INTO.get(name)
+            if host and self.by_name.get(host):
+                self.folded[name] = host
+                return self.fn(host, unit, required)
             if required:
                 raise AnalysisBroken("anchor function '%s' not found%s" % (name, " in " + unit if unit else ""))
             return None
